@@ -25,6 +25,14 @@ CLAIMED = {
              '(none, valid, invalid address). Counterexamples are replayed natively by reproducing every predicted balance and reserve.',
         ref='DESIGN.md §6 C04',
         note=TRUST + 'Addresses and denoms are concrete labels; amounts are symbolic.'),
+    'C07': dict(
+        text='Claims executed through the public Claim message on a bounded epoch window (current epoch 10, concrete snapshot / farm epochs, symbolic '
+             'weights, rates and budgets): the amount paid equals an independent ledger sum of floor(emission * weight in effect / total in effect); cursor, '
+             'claimed_amount, weights after the claimed span and other users are checked; Rewards query equals Claim; splitting a claim with until_epoch '
+             'pays the same total (relational, two executions).',
+        ref='DESIGN.md §6 C07',
+        note=TRUST + 'Bounded: 2 explicit users plus an aggregated remainder, 1-2 farms, window of 10 epochs; the weight-history representation invariant '
+             '(no snapshot older than the claim cursor) is assumed in pre-states.'),
     'C09': dict(
         text='calculate_emergency_penalty executed symbolically (amount, duration, base penalty, times full range): <= 90%, equals the capped product with '
              'the code\'s 18-decimal floors, zero once unlocked, non-increasing in time.',
